@@ -7,22 +7,37 @@
 import PM.Structure2
 namespace PM
 
+/-- a closed fragment `C` may go in at the resolved position `rp`, as far as the helpers do not look: either `rp` is a
+    child boundary, or it is strictly inside a text child — then the helpers' test (`can_replace…(index, index, …)`, with
+    `index` the index of that text child) read "`C` in front of the text", while the insertion puts `C` between its two
+    halves: the parent must accept `text C text` there, i.e. `parent.can_replace(index + 1, index + 1, C ++ [that child])`
+    (true in every `text*` / `inline*` parent; false e.g. for content `image? text* image`), and the cut must not fall
+    between the two halves of a surrogate pair (`TextNode.cut` raises there) -/
+def insideTextGuardR (S : Schema) (rp : RPos) (C : List Node) : Bool :=
+  rp.textOffset == 0 ||
+    match rp.parent.kids[rp.index rp.depth]? with
+    | some (.text s m) =>
+      splitOk s rp.textOffset &&
+        S.nodeCanReplace rp.parent (rp.index rp.depth + 1) (rp.index rp.depth + 1) (C ++ [.text s m]) == some true
+    | _ => false
+
+def insideTextGuard (S : Schema) (doc : Node) (p : Nat) (C : List Node) : Bool :=
+  match doc.resolve p with
+  | some rp => insideTextGuardR S rp C
+  | none => true
+
 /-- `insert_point` tests `can_replace_with(index, index, type)` — the type only.  The insertion of a node `n` of that
     type at the returned position `p` also needs
-    * `p` not strictly inside a text child: there `index` is the index of that text child, the test reads "`n` in
-      front of the text", the insertion puts `n` between its two halves (`image? text* image`: approved, refused);
+    * `insideTextGuard` (above) when `p` is strictly inside a text child;
     * the marks of `n` allowed by the parent of `p` (`close` → `check_content`). -/
 def insertGuard (S : Schema) (doc : Node) (p : Nat) (n : Node) : Bool :=
   match doc.resolve p with
-  | some rp => rp.textOffset == 0 && (S.nodeType (S.tyOf rp.parent)).allowsMarks n.marks
+  | some rp => insideTextGuardR S rp [n] && (S.nodeType (S.tyOf rp.parent)).allowsMarks n.marks
   | none => true
 
 /-- `drop_point`'s first pass tests `can_replace(index, index, content)` (marks included): only the first point above
     remains -/
-def dropGuard (doc : Node) (p : Nat) : Bool :=
-  match doc.resolve p with
-  | some rp => rp.textOffset == 0
-  | none => true
+def dropGuard (S : Schema) (doc : Node) (p : Nat) (C : List Node) : Bool := insideTextGuard S doc p C
 
 /-- the answer of the first pass of `drop_point` ("the content fits as it is"); `some none` = the pass ran out (the
     second pass, which looks for a wrapping of the first node, may still answer) -/
